@@ -335,12 +335,14 @@ Definition decoded_targets (bs : list blk) (fs : fsmap) : list (option bytes) :=
    10  leaving a block raised an exception of its own
    11  a temporary entry remains after all blocks were left
    12  a file that is not the target of a compress block (an archive, a bystander) changed or vanished
-   13  the target of an undisturbed compress block is not an archive of the bytes written in ITS block *)
+   13  the target of an undisturbed compress block is not an archive of the bytes written in ITS block
+   14  a block that can be entered when it is alone could not be entered (raised) beside the others *)
 Definition zl_eqb (a b : list Z) : bool := zs_eqb a b.
 Fixpoint law_events (ideal impl : list (list Z)) : list Z :=
   match ideal, impl with
   | (_ :: 2 :: 1 :: r) :: ti, (_ :: 2 :: r') :: tm => (if zl_eqb (1 :: r) r' then [] else [9]) ++ law_events ti tm
   | (_ :: [4; 0]) :: ti, (_ :: [4; 1]) :: tm => 10 :: law_events ti tm
+  | (_ :: [1; 0; _]) :: ti, (_ :: 1 :: 1 :: _) :: tm => 14 :: law_events ti tm
   | _ :: ti, _ :: tm => law_events ti tm
   | _, _ => []
   end.
@@ -362,7 +364,7 @@ Record hist_obs := mkH { ho_codes : list (list Z); ho_watch : list (list Z); ho_
 
 Definition hist_laws (ideal impl : hist_obs) (all_left : bool) : list Z :=
   law_events (ho_codes ideal) (ho_codes impl)
-  ++ (if all_left && negb (last_count (ho_codes impl) =? 0) then [11] else [])
+  ++ (if all_left && (0 <? last_count (ho_codes impl)) then [11] else [])
   ++ (if all_eqb (ho_watch ideal) (ho_watch impl) then [] else [12])
   ++ (if all_left && negb (optl_eqb (ho_targets ideal) (ho_targets impl)) then [13] else []).
 
